@@ -217,9 +217,10 @@ func (state *RuntimeState) getStorageDataFromStorageStringDataJWT(serializedToke
 	// At this stage crypto has been verified (data actually comes from a valid signer),
 	// Now is time to do semantic validation
 	issuer := state.idpGetIssuer()
+	now := time.Now().Unix()
 	if inboundJWT.Issuer != issuer || inboundJWT.TokenType != "storage_data" ||
 		len(inboundJWT.Audience) < 1 || inboundJWT.Audience[0] != issuer ||
-		inboundJWT.NotBefore > time.Now().Unix() {
+		inboundJWT.NotBefore > now || inboundJWT.Expiration < now {
 		err = errors.New("invalid JWT values")
 		return rvalue, err
 	}
